@@ -187,7 +187,8 @@ def truthyO : Option Val → Bool
 /-- `subcommand_keys = [k for k in action.choices.keys() if isinstance(cfg.get(prefix + k), Namespace)]` -/
 def subKeys (ns : List String) (cfg : Cfg) : List String := ns.filter (fun k => isSecAt k cfg)
 
-def getSub (h : SubHdr) (ns : List String) (fl : Flags) (pre : List String) (cfg : Cfg) : Except Err GetRes :=
+/-- the body of `get_subcommands` up to the `if fail_no_subcommand:` block -/
+def getSubCore (h : SubHdr) (ns : List String) (fl : Flags) (cfg : Cfg) : GetRes :=
   let keys := subKeys ns cfg
   let expl := explicitOf (lookup h.dest cfg)
   -- elif len(subcommand_keys) > 0 and (fail_no_subcommand or require_single): cfg[dest] = subcommand = subcommand_keys[0]
@@ -199,11 +200,15 @@ def getSub (h : SubHdr) (ns : List String) (fl : Flags) (pre : List String) (cfg
   let cfg2 := if truthyO sub && decide (keys.length > 1) then eraseAll (keys.filter (fun k => !isStr k sub)) cfg1 else cfg1
   -- if subcommand: subcommand_keys = [subcommand]
   let todo : List Val := if truthyO sub then sub.toList else keys.map Val.str
+  ⟨cfg2, sub, todo, warn⟩
+
+def getSub (h : SubHdr) (ns : List String) (fl : Flags) (pre : List String) (cfg : Cfg) : Except Err GetRes :=
+  let r := getSubCore h ns fl cfg
   if fl.fail then
-    if sub.isNone && !h.required then .ok ⟨cfg2, .none, [], warn⟩
-    else if h.required && !validNameO ns sub then .error (.nosub (pre ++ [h.dest]))
-    else .ok ⟨cfg2, sub, todo, warn⟩
-  else .ok ⟨cfg2, sub, todo, warn⟩
+    if r.sub.isNone && !h.required then .ok ⟨r.cfg, .none, [], r.warn⟩
+    else if h.required && !validNameO ns r.sub then .error (.nosub (pre ++ [h.dest]))
+    else .ok r
+  else .ok r
 
 def nameOf : Val → Option String
   | .str s => some s
@@ -429,5 +434,37 @@ def argvCall (lay : Mode → P → Cfg) (single : Bool) (mode : Mode) (h : SubHd
         | .ok s => .ok (insert n (.sec s) cfg1)
     else argvCall lay single mode h rest n av cfg
 end
+
+/-! ### the statements of the code that the definitions above transcribe
+
+Text of the anchored statements as `ast.unparse` prints them.  `harness/extractors/subcmd_shape.py` regenerates the same
+constants from /repo's working tree into `Jap.Gen.SubcmdShape` on every run; the tie theorems of `Props/C17.lean`
+(`tie_*`) state that both agree, so an edit of any of these statements breaks a proof until the model is revisited. -/
+namespace Shape
+def keysExpr : String := "[k for k in action.choices.keys() if isinstance(cfg.get(prefix + k), Namespace)]"
+def explicitTest : String := "dest in cfg and cfg.get(dest) is not None"
+def pickTest : String := "len(subcommand_keys) > 0 and (fail_no_subcommand or require_single)"
+def pickFromEnd : Bool := false
+def pickOffset : Nat := 0
+def removeTest : String := "subcommand and len(subcommand_keys) > 1"
+def removeFilter : String := "[k for k in subcommand_keys if k != subcommand]"
+def singleTest : String := "subcommand"
+def failTests : List String := ["subcommand is None and (not (fail_no_subcommand and action._required))", "action._required and subcommand not in action._name_parser_map"]
+def returns : List String := ["(subcommand_keys, [action._name_parser_map.get(s) for s in subcommand_keys])", "(None, None)", "(None, None)"]
+def layerCalls : List String := ["env: subnamespace = subparser.parse_env(defaults=defaults, _skip_validation=True)", "defaults: subnamespace = subparser.get_defaults(skip_validation=True)"]
+def mergeCall : String := "subparser.merge_config(cfg.get(key) or Namespace(), subnamespace)"
+def givenFirst : Bool := true
+def recurseCall : String := "_ActionSubCommands.handle_subcommands(subparser, cfg, env, defaults, key + '.', fail_no_subcommand=fail_no_subcommand)"
+def argvAction : List String := ["subcommand = values[0]", "arg_strings = values[1:]", "namespace[self.dest] = subcommand", "if subcommand in self._name_parser_map:\n    subparser = self._name_parser_map[subcommand]\n    subnamespace = namespace.get(subcommand).clone() if subcommand in namespace else None\n    kwargs = dict(_skip_validation=True, **parse_kwargs.get())\n    namespace[subcommand] = subparser.parse_args(arg_strings, namespace=subnamespace, **kwargs)"]
+def applyConfigWith : List String := ["_ActionSubCommands.not_single_subcommand()", "previous_config_context(cfg)", "skip_apply_links()"]
+def applyConfigKwargs : List String := ["_fail_no_subcommand=False", "_skip_validation=True", "defaults=False", "env=False"]
+def defaultCfgParseCommon : List String := ["cfg=cfg", "defaults=False", "env=False", "fail_no_subcommand=False", "skip_required=True", "skip_validation=skip_validation", "with_meta=None"]
+def parseCommonFailDefault : String := "True"
+def parseStringPrivate : List String := ["_fail_no_subcommand=True", "_skip_validation=False"]
+def parseArgsParseCommonKw : List String := ["cfg", "defaults", "env", "skip_validation", "with_meta"]
+def envBranch : List String := ["env_var in env and isinstance(action, _ActionSubCommands)", "env_val = env[env_var]", "if env_val in action.choices:\n    cfg[action.dest] = subcommand = self._check_value_key(action, env_val, action.dest, cfg)\n    pcfg = action._name_parser_map[env_val].parse_env(env=env, defaults=defaults, _skip_validation=True)\n    for k, v in vars(pcfg).items():\n        cfg[subcommand + '.' + k] = v"]
+def applyLinksHead : List String := ["if apply_config_skip.get() or _ActionPrintConfig.is_print_config_requested(parser):\n    return", "subcommand, subparser = _ActionSubCommands.get_subcommand(parser, cfg, fail_no_subcommand=False)", "if subcommand and subcommand in cfg:\n    ActionLink.apply_parsing_links(subparser, cfg[subcommand])"]
+def addSubcommand : List String := ["if parser._subparsers is not None:\n    raise ValueError('Multiple levels of subcommands must be added in level order.')", "if self.dest == name:\n    raise ValueError(f\"A subcommand name can't be the same as the subcommands dest: '{name}'.\")", "parser.prog = f'{self._prog_prefix} [options] {name}'", "parser.env_prefix = f'{self.env_prefix}{name}_'", "parser.default_env = self.parent_parser.default_env", "parser.parent_parser = self.parent_parser", "parser.parser_mode = self.parent_parser.parser_mode", "parser._error_handler = self.parent_parser._error_handler", "parser.exit_on_error = self.parent_parser.exit_on_error", "parser.logger = self.parent_parser.logger", "parser.subcommand = name"]
+end Shape
 
 end Jap.Subcmd
